@@ -25,11 +25,14 @@ pub fn l3_cfg(t: &mut Tape) -> GenCfg {
     let mut cfg = GenCfg::rich(8);
     cfg.int_args_only = true;
     cfg.mappable_addrs = true;
-    cfg.docs = false;
     cfg.backends = false;
     cfg.max_items = 4 + t.below(14 * crate::driver::scale());
     cfg.max_fields = 5;
     cfg.max_gap = 24;
+    // one program in eight re-declares an inherited function / repeats a function or member name:
+    // rejected today, and judged like any other program should it ever be accepted
+    cfg.clashes = 8;
+    cfg.clash_renames = false;
     cfg
 }
 
